@@ -176,11 +176,19 @@ Definition read_file (g : nat) : prog (val * list rblock) :=
   s <- reader_open g ;; bs <- read_blocks g g s [] ;; Ret (rs_pre s, bs).
 
 (* ------------------------------------------------------------------------------------------------ generic records back *)
+(* the n-th element of a list for a binary index: the bounds check comes first, so that an index of 2^31 read from a malformed file is
+   refused without ever being turned into a unary number (the executable model met such indices: one integer of a file at a boundary) *)
+Definition nthN {A} (l : list A) (n : N) : option A := if N.of_nat (length l) <=? n then None else nth_error l (N.to_nat n).
+Lemma nthN_spec {A} (l : list A) (n : N) : nthN l n = nth_error l (N.to_nat n).
+Proof.
+  unfold nthN. destruct (N.leb_spec (N.of_nat (length l)) n) as [H|H]; [|reflexivity].
+  symmetry. apply nth_error_None. lia.
+Qed.
 Definition tl_get (tbs : list (option val)) (i : nat) (ix : option val) : option (option val) :=
   (* Some None: member absent; None: index out of range (std::runtime_error) *)
   match ix with
   | None => Some None
-  | Some (VN n) => match nth_error (lst (nth_o tbs i)) (N.to_nat n) with Some v => Some (Some v) | None => None end
+  | Some (VN n) => match nthN (lst (nth_o tbs i)) n with Some v => Some (Some v) | None => None end
   | Some _ => None
   end.
 Definition obind {A B} (o : option A) (f : A -> option B) : option B := match o with Some a => f a | None => None end.
